@@ -478,6 +478,11 @@ type TxPrediction struct {
 func (m *Model) PredictTx(f *TxFacts) TxPrediction {
 	var p TxPrediction
 	s := f.Spec
+	if m.TxIndex[f.Hash] && len(f.Bytes) > 0 && (s.Kind == "raw" || s.Kind == "replay" || !f.Decodable) {
+		// whatever these bytes are - also a non-canonical encoding the decoder tolerates -, the index has them
+		p.MustReject, p.RejectReason, p.RejectProp = true, "replay-of-indexed-tx", "C03"
+		return p
+	}
 	if s.Kind == "raw" || s.Kind == "replay" || !f.Decodable {
 		p.NoClaim = true
 		return p
